@@ -58,9 +58,9 @@ func (f *fakeStream) SendMsg(m interface{}) error  { f.log.add(2); return *f.cal
 func (f *fakeStream) RecvMsg(m interface{}) error  { f.log.add(2); return *f.callErr }
 
 type c14case struct {
-	Kind    int     `json:"kind"` // 1 unary server, 2 unary client, 3 stream
-	Opts    []int64 `json:"opts"` // (kind, value) pairs
-	Ops     [][]int64 `json:"ops"`  // per op: [opcode, acquire_ok, (call_err,) cls]
+	Kind int       `json:"kind"` // 1 unary server, 2 unary client, 3 stream
+	Opts []int64   `json:"opts"` // (kind, value) pairs
+	Ops  [][]int64 `json:"ops"`  // per op: [opcode, acquire_ok, (call_err,) cls]
 }
 
 func limiterIDOf(l core.Limiter) int64 {
